@@ -474,7 +474,8 @@ ASSUMPTIONS = ['text and unit_system are str (non-str arguments are outside the 
 RULE = ('boundary grid first: 3 signs x 5 magnitudes x (22 prefixes + none) x {b,bit,B} x {IEC,SI,mixed} x return_int; 46 foreign prefixes; 56 magnitude shapes '
         '(integers, decimals, leading/trailing dot, Unicode digits, 17+ digits, >308 digits, subnormal range, malformed); malformed units; 14 unknown unit systems; '
         'trailing-newline and whitespace variants; then random structured cases (72% well-formed for some system, 15% one malformed component, 13% junk); '
-        'qemu-img style fields (magnitude, optional unit, optional "(N bytes)" figure, e-notation, decorations); regex-engine cases; float-model cases; '
+        'qemu-img style fields (magnitude, optional unit, optional "(N bytes)" figure, e-notation, decorations); QemuImgInfo(line) for 19 field-name '
+        'spellings x 46 size texts (well-formed, None/unavailable, malformed) + random; regex-engine cases; float-model cases; '
         'distinct = distinct case JSON; trivial = none')
 LEVEL_TEXT = ('Unbounded theorems (all texts, all unit-system strings): the unit systems are exactly IEC/SI/mixed; a regex of a system matches a text '
               'iff it is [sign]number[prefix of the system]unit and nothing else (the patterns end in \\Z, translated as an end-of-subject flag); every prefix a regex can capture is in the exponent table with the SI/IEC '
@@ -485,8 +486,11 @@ LEVEL_TEXT = ('Unbounded theorems (all texts, all unit-system strings): the unit
               'integer (proved on SpecFloat, no axioms); _extract_bytes returns the "(N bytes)" figure whenever SIZE_RE finds one, otherwise uses '
               'string_to_bytes(IEC, return_int). Tables and the four regexes are regenerated from the source on every run and enter the theorems '
               'through computed checkers; the body of string_to_bytes is translated statement by statement and proved equal to the model. '
+              'QemuImgInfo: _canonicalize, _extract_bytes and the size branch of _extract_details are translated statement by statement and proved '
+              'equal to the model; the size fields are exactly virtual/cluster/disk size, 0 only for None/unavailable, every ValueError of '
+              '_extract_bytes propagates (never a silent 0), _extract_bytes raises nothing else; units.py constants agree with base^exponent. '
               'Partial: non-representable products are only "the IEEE evaluation" (the oracle bounds the distance to the exact rational); '
-              '_extract_bytes is tied by correspondence, not by translation.')
+              '_parse is modelled for one line and tied by correspondence (op qf).')
 LEVEL_NOTE = ('Trusted: Coq kernel/vm_compute; translators (CPython re._parser via regex_tr, ast via gen_C10); models of CPython float()/int()/re/float '
               'arithmetic/math.ceil/format(.0f) in Base/ (PyFloat.v on the stdlib SpecFloat operations), each re-validated bit-exactly against the '
               'running interpreter on every run; int() digit limit 4300 as a constant. All Print Assumptions: Closed under the global context.')
